@@ -644,4 +644,356 @@ theorem getD_foldl_setAt (T : List (Nat × OverlapResult × Fragment)) :
     · simp only [e, decide_false]
       rw [getD_setAt_ne _ _ _ _ _ e]
 
+/-! ### the step for one shared contig -/
+
+theorem chain_step {input ptx : List Scaffold} {err : Int} {b1 bc : Build} {done : List (SiteN × Nat)} {off : Nat}
+    {x : SiteN} (c : Ctx input ptx err b1 bc done off x) (fnd : Found) (hf : SiteNFacts input ptx x fnd) :
+    ∃ bc', cutFragments bc fnd = .ok bc' ∧
+      CutInvN input ptx b1 (done ++ [(x, off)]) (off + x.chain.length) bc' := by
+  have hnd := chain_nodup c.hd x c.hx
+  have h2 := hf.len
+  have hH := fun p hp => holder_step c hnd h2 p hp
+  have hP := fun p hp => pair_step c hnd p hp
+  -- visiting order
+  generalize hV : (if x.frag.strand = 1 then x.chain else x.chain.reverse) = V
+  have hVperm : V.Perm x.chain := by
+    rw [← hV]; split
+    · exact List.Perm.refl _
+    · exact List.reverse_perm _
+  have hVlen : V.length = x.chain.length := hVperm.length_eq
+  have hVnd : V.Nodup := hVperm.nodup_iff.2 hnd
+  -- every holder, by membership
+  have hmem : ∀ i ∈ x.chain, HolderOk input ptx bc done off x (x.chain.idxOf i) i := by
+    intro i hi
+    have hlt := List.idxOf_lt_length_of_mem hi
+    have := hH (x.chain.idxOf i) hlt
+    rwa [List.getElem_idxOf hlt] at this
+  have hgetRes : ∀ i ∈ x.chain, getRes bc.store i = curN input ptx done i := by
+    intro i hi
+    unfold getRes; rw [(hmem i hi).2.1]
+  let κ : Nat → Int := fun i =>
+    match (curN input ptx done i).fragmentStartIfTrimmed x.frag with
+    | .ok v => v
+    | .error _ => 0
+  have hκ : ∀ i ∈ x.chain, (curN input ptx done i).fragmentStartIfTrimmed x.frag = .ok (κ i) := by
+    intro i hi
+    obtain ⟨v, hv⟩ := (hmem i hi).2.2.2.1
+    simp only [κ, hv]
+  have hstr : x.frag.strand = 1 ∨ x.frag.strand = -1 :=
+    (adj_get _ _ (c.hd.chains x c.hx) 0 (by omega)).strand
+  -- keys are strictly monotone along the chain
+  have hkeys : ∀ p (hp : p + 1 < x.chain.length),
+      (x.frag.strand = 1 → κ (x.chain[p]) < κ (x.chain[p + 1])) ∧
+      (x.frag.strand = -1 → κ (x.chain[p + 1]) < κ (x.chain[p])) := by
+    intro p hp
+    obtain ⟨⟨ka, kb, h1, h2, h3, h4⟩, -⟩ := hP p hp
+    have e1 := hκ (x.chain[p]) (List.getElem_mem _)
+    have e2 := hκ (x.chain[p + 1]) (List.getElem_mem _)
+    rw [h1] at e1; rw [h2] at e2
+    simp only [Except.ok.injEq] at e1 e2
+    rw [← e1, ← e2]
+    exact ⟨h3, h4⟩
+  have hsorted : V.Pairwise (fun a c => κ a < κ c) := by
+    rw [← hV]
+    rcases hstr with hs | hs
+    · rw [if_pos hs]
+      exact adj_pairwise (fun a b => κ a < κ b) (fun a b c h1 h2 => Int.lt_trans h1 h2) _
+        (adj_of_get _ _ (fun p hp => (hkeys p hp).1 hs))
+    · rw [if_neg (by omega), List.pairwise_reverse]
+      exact adj_pairwise (fun a b => κ b < κ a) (fun a b c h1 h2 => Int.lt_trans h2 h1) _
+        (adj_of_get _ _ (fun p hp => (hkeys p hp).2 hs))
+  -- position and flags of the `j`-th visited holder
+  have hvis : ∀ j (hj : j < V.length), V[j] ∈ x.chain ∧
+      (x.frag.strand = 1 → x.chain.idxOf V[j] = j) ∧ (x.frag.strand = -1 → x.chain.idxOf V[j] = x.chain.length - 1 - j) ∧
+      cutFlags x.frag.strand j (x.chain.length - 1) =
+        ((x.chain.idxOf V[j] == 0), (x.chain.idxOf V[j] + 1 == x.chain.length)) ∧
+      oidHN bc x V[j] = bc.nextOid + j := by
+    intro j hj
+    have hmemj : V[j] ∈ x.chain := hVperm.mem_iff.1 (List.getElem_mem _)
+    refine ⟨hmemj, ?_⟩
+    rcases hstr with hs | hs
+    · have hVC : V = x.chain := by rw [← hV, if_pos hs]
+      have hidx : x.chain.idxOf V[j] = j := by
+        subst hVC; exact hnd.idxOf_getElem j hj
+      have hn1 : ¬ ((1 : Int) = -1) := by decide
+      refine ⟨fun _ => hidx, fun h => by omega, ?_, ?_⟩
+      · unfold cutFlags
+        rw [hidx, hs, if_neg hn1]
+        congr 1
+        rw [Bool.eq_iff_iff, beq_iff_eq, beq_iff_eq]
+        omega
+      · unfold oidHN
+        rw [hidx, if_pos hs]
+    · have hVC : V = x.chain.reverse := by rw [← hV, if_neg (by omega)]
+      have hj' : j < x.chain.length := by rw [← hVlen]; exact hj
+      have hidx : x.chain.idxOf V[j] = x.chain.length - 1 - j := by
+        subst hVC
+        rw [List.getElem_reverse]
+        exact hnd.idxOf_getElem _ (by omega)
+      refine ⟨fun h => by omega, fun _ => hidx, ?_, ?_⟩
+      · unfold cutFlags
+        rw [hidx, hs, if_pos rfl]
+        congr 1
+        · rw [Bool.eq_iff_iff, beq_iff_eq, beq_iff_eq]; omega
+        · rw [Bool.eq_iff_iff, beq_iff_eq, beq_iff_eq]; omega
+      · unfold oidHN
+        rw [hidx, if_neg (by omega)]
+        omega
+  -- the list handed to `cutFragments_chain`
+  let N : Nat → Fragment := fun i => newFragN input ptx done bc x i
+  let T : List (Nat × OverlapResult × Fragment) := V.map (fun i => (i, newResN input ptx done off x i, N i))
+  have hT1 : T.map (·.1) = V := by simp [T, List.map_map, Function.comp_def]
+  have hT2 : T.map (·.2.2) = V.map N := by simp [T, List.map_map, Function.comp_def]
+  have hTlen : T.length = x.chain.length := by simp [T, hVlen]
+  have hperm : (T.map (·.1)).Perm fnd.scaffolds := by rw [hT1]; exact hVperm.trans hf.perm
+  have hκ' : ∀ h ∈ fnd.scaffolds, (getRes bc.store h).fragmentStartIfTrimmed fnd.fragment = .ok (κ h) := by
+    intro h hh
+    have hc := hf.perm.mem_iff.2 hh
+    rw [hgetRes h hc, ← hf.frag]
+    exact hκ h hc
+  have htrim : ∀ j t, T[j]? = some t →
+      (bc.store.getD t.1 default).o.trimFragment fnd.fragment (cutFlags fnd.fragment.strand j (T.length - 1)).1
+        (cutFlags fnd.fragment.strand j (T.length - 1)).2 (bc.nextOid + j) = .ok (t.2.1, t.2.2) := by
+    intro j t ht
+    simp only [T, List.getElem?_map] at ht
+    cases hv : V[j]? with
+    | none => rw [hv] at ht; cases ht
+    | some i =>
+      rw [hv] at ht
+      simp only [Option.map_some, Option.some.injEq] at ht
+      subst ht
+      obtain ⟨hj, rfl⟩ := List.getElem?_eq_some_iff.1 hv
+      obtain ⟨hm, -, -, hfl, hoid⟩ := hvis j hj
+      have hh := hmem V[j] hm
+      rw [← hf.frag, hTlen, hfl, ← hoid, hh.2.1]
+      exact hh.2.2.1
+  -- the new Fragments tile the contig
+  have hF : x.frag.length = x.frag.stop - x.frag.start + 1 := rfl
+  have hpairN : ∀ p (hp : p + 1 < x.chain.length),
+      (x.frag.strand = 1 → Follows' (N (x.chain[p])) (N (x.chain[p + 1]))) ∧
+      (x.frag.strand = -1 → Follows' (N (x.chain[p + 1])) (N (x.chain[p]))) := by
+    intro p hp
+    obtain ⟨-, hsum⟩ := hP p hp
+    obtain ⟨-, -, -, -, ha1, ha2, ha3⟩ := hH p (by omega)
+    obtain ⟨-, -, -, -, hb1, hb2, hb3⟩ := hH (p + 1) hp
+    obtain ⟨na, pa, ma⟩ := newFragN_coords input ptx done bc x (x.chain[p]) h2
+    obtain ⟨nb, pb, mb⟩ := newFragN_coords input ptx done bc x (x.chain[p + 1]) h2
+    constructor
+    · intro hs
+      obtain ⟨a1, a2⟩ := pa hs
+      obtain ⟨b1', b2'⟩ := pb hs
+      exact ⟨na.trans nb.symm, by show (N _).start ≤ (N _).stop; simp only [N]; omega,
+        by show (N _).start ≤ (N _).stop; simp only [N]; omega, by show (N _).stop + 1 = (N _).start; simp only [N]; omega⟩
+    · intro hs
+      obtain ⟨a1, a2⟩ := ma hs
+      obtain ⟨b1', b2'⟩ := mb hs
+      exact ⟨nb.trans na.symm, by show (N _).start ≤ (N _).stop; simp only [N]; omega,
+        by show (N _).start ≤ (N _).stop; simp only [N]; omega, by show (N _).stop + 1 = (N _).start; simp only [N]; omega⟩
+  have hadjN : Adj Follows' (V.map N) := by
+    rw [← hV]
+    rcases hstr with hs | hs
+    · rw [if_pos hs]
+      exact adj_map _ N _ (adj_of_get _ _ (fun p hp => (hpairN p hp).1 hs))
+    · rw [if_neg (by omega)]
+      exact adj_map _ N _ (adj_reverse (fun a b => Follows' (N a) (N b)) _
+        (adj_of_get _ _ (fun p hp => (hpairN p hp).2 hs)))
+  obtain ⟨v0, vt, hVc⟩ : ∃ v0 vt, V = v0 :: vt := by
+    cases hVc : V with
+    | nil => rw [hVc] at hVlen; simp at hVlen; omega
+    | cons v0 vt => exact ⟨v0, vt, rfl⟩
+  have hnews : T.map (·.2.2) = N v0 :: vt.map N := by rw [hT2, hVc]; rfl
+  have hadjN' : Adj Follows' (N v0 :: vt.map N) := by rw [← hnews, hT2]; exact hadjN
+  have h0lt : 0 < V.length := by omega
+  have hv0 : V[0] = v0 := by simp [hVc]
+  have hstart : (N v0).start = fnd.fragment.start := by
+    rw [← hf.frag, ← hv0]
+    obtain ⟨hm, hi1, hi2, -, -⟩ := hvis 0 h0lt
+    obtain ⟨-, pa, ma⟩ := newFragN_coords input ptx done bc x V[0] h2
+    rcases hstr with hs | hs
+    · rw [(pa hs).1]; unfold cutL; rw [hi1 hs]; simp
+    · rw [(ma hs).1]; unfold cutR; rw [hi2 hs]
+      have : ¬ (x.chain.length - 1 - 0 + 1 < x.chain.length) := by omega
+      rw [if_neg this]; simp
+  have hlastlt : V.length - 1 < V.length := by omega
+  have hlastE : (N v0 :: vt.map N).getLast (by simp) = N (V[V.length - 1]) := by
+    have : N v0 :: vt.map N = V.map N := by rw [hVc]; rfl
+    simp only [this]
+    rw [List.getLast_eq_getElem]
+    simp
+  have hstop : ((N v0 :: vt.map N).getLast (by simp)).stop = fnd.fragment.stop := by
+    rw [hlastE, ← hf.frag]
+    obtain ⟨hm, hi1, hi2, -, -⟩ := hvis (V.length - 1) hlastlt
+    obtain ⟨-, pa, ma⟩ := newFragN_coords input ptx done bc x V[V.length - 1] h2
+    rcases hstr with hs | hs
+    · rw [(pa hs).2]; unfold cutR; rw [hi1 hs]
+      have : ¬ (V.length - 1 + 1 < x.chain.length) := by omega
+      rw [if_neg this]; simp
+    · rw [(ma hs).2]; unfold cutL; rw [hi2 hs]
+      have : ¬ (0 < x.chain.length - 1 - (V.length - 1)) := by omega
+      rw [if_neg this]; simp
+  have hcut := cutFragments_chain bc fnd T κ hκ' hperm (by rw [hT1]; exact hsorted) htrim (N v0) (vt.map N) hnews hadjN'
+    hstart hstop
+  refine ⟨_, hcut, ?_⟩
+  -- the invariant
+  have hTlt : ∀ t ∈ T, t.1 < bc.store.length := by
+    intro t ht
+    have : t.1 ∈ T.map (·.1) := List.mem_map_of_mem ht
+    rw [hT1] at this
+    rw [c.hinv.len]
+    exact (hmem t.1 (hVperm.mem_iff.1 this)).1
+  obtain ⟨hl, hg⟩ := getD_foldl_setAt T bc.store (by rw [hT1]; exact hVnd) hTlt
+  refine ⟨by show (applyCuts bc T).store.length = _; unfold applyCuts; rw [hl]; exact c.hinv.len, ?_,
+    by show (applyCuts bc T).nextOid = _; unfold applyCuts; simp only [hTlen]; rw [c.hinv.nextOid]; omega,
+    by show bc.cuts + ((T.length : Int) - 1) = _; rw [hTlen, c.hinv.cuts]; simp only [List.length_append,
+        List.length_singleton]; omega,
+    c.hinv.found, c.hinv.multi, c.hinv.namer, c.hinv.extra, c.hinv.joinGap, c.hinv.err⟩
+  intro i hi
+  show (applyCuts bc T).store.getD i default = _
+  unfold applyCuts
+  simp only
+  rw [hg i, c.hinv.store i hi]
+  cases hfnd : T.find? (fun t => t.1 = i) with
+  | some t =>
+    have ht1 : t.1 = i := by simpa using List.find?_some hfnd
+    have htm : t ∈ T := List.mem_of_find?_eq_some hfnd
+    simp only [T, List.mem_map] at htm
+    obtain ⟨v, -, rfl⟩ := htm
+    simp only at ht1
+    subst ht1
+    rfl
+  | none =>
+    have hni : i ∉ x.chain := by
+      intro hmi
+      have : i ∈ V := hVperm.mem_iff.2 hmi
+      have := List.find?_eq_none.1 hfnd (i, newResN input ptx done off x i, N i) (by
+        simp only [T, List.mem_map]; exact ⟨i, this, rfl⟩)
+      simp at this
+    have hidx : x.chain.idxOf i = x.chain.length := List.idxOf_eq_length hni
+    simp only
+    unfold resDeepN
+    rw [startCutN_append, endCutN_append]
+    have hlt : ¬ (x.chain.length + 1 < x.chain.length) := by omega
+    simp [hidx, hlt]
+
+/-! ### the whole loop -/
+
+def offs (l : List SiteN) : Nat := (l.map (·.chain.length)).sum
+
+theorem withOffsets_append (n : Nat) (l : List SiteN) (x : SiteN) :
+    withOffsets n (l ++ [x]) = withOffsets n l ++ [(x, n + offs l)] := by
+  induction l generalizing n with
+  | nil => simp [withOffsets, offs]
+  | cons a t ih =>
+    have e : offs (a :: t) = a.chain.length + offs t := rfl
+    rw [List.cons_append, withOffsets, withOffsets, ih, e, List.cons_append, Nat.add_assoc]
+
+theorem mem_withOffsets {n : Nat} {l : List SiteN} {y : SiteN × Nat} (h : y ∈ withOffsets n l) : y.1 ∈ l := by
+  induction l generalizing n with
+  | nil => cases h
+  | cons a t ih =>
+    simp only [withOffsets, List.mem_cons] at h
+    rcases h with rfl | h
+    · simp
+    · exact List.mem_cons_of_mem _ (ih h)
+
+theorem length_withOffsets (n : Nat) (l : List SiteN) : (withOffsets n l).length = l.length := by
+  induction l generalizing n with
+  | nil => rfl
+  | cons a t ih => simp [withOffsets, ih]
+
+theorem cutFold_deepN {input ptx : List Scaffold} {err : Int} (hd : DeepCutN input ptx err) (b1 : Build)
+    (hfound : b1.found = (regOf input ptx).1) (ks : List Key) :
+    ∀ (dks : List Key) (bc : Build), sharedKeys input ptx = dks ++ ks →
+      CutInvN input ptx b1 (withOffsets 0 (dks.map (siteOfN ptx (regOf input ptx).1)))
+        (offs (dks.map (siteOfN ptx (regOf input ptx).1))) bc →
+      ∃ bc', ks.foldlM cutKey bc = .ok bc' ∧
+        CutInvN input ptx b1 (withOffsets 0 ((dks ++ ks).map (siteOfN ptx (regOf input ptx).1)))
+          (offs ((dks ++ ks).map (siteOfN ptx (regOf input ptx).1))) bc' := by
+  induction ks with
+  | nil => intro dks bc _ hinv; exact ⟨bc, rfl, by simpa using hinv⟩
+  | cons k ks' ih =>
+    intro dks bc hsplit hinv
+    have hnd : (dks ++ k :: ks').Nodup := by rw [← hsplit]; exact (regOf_ok input ptx).multiNodup
+    have hk : k ∈ sharedKeys input ptx := by rw [hsplit]; simp
+    have hxs : siteOfN ptx (regOf input ptx).1 k ∈ sitesN input ptx := List.mem_map_of_mem hk
+    obtain ⟨fnd, hf⟩ := siteN_facts input ptx _ hxs
+    obtain ⟨_, hgetk, -, -, hek⟩ := site_casesN input ptx k hk
+    have hxk : (siteOfN ptx (regOf input ptx).1 k).key = k := by rw [hek]
+    have hdone : ∀ y ∈ withOffsets 0 (dks.map (siteOfN ptx (regOf input ptx).1)),
+        y.1 ∈ sitesN input ptx ∧ y.1.key ≠ (siteOfN ptx (regOf input ptx).1 k).key := by
+      intro y hy
+      obtain ⟨k', hk', hy1⟩ := List.mem_map.1 (mem_withOffsets hy)
+      have hk's : k' ∈ sharedKeys input ptx := by rw [hsplit]; simp [hk']
+      obtain ⟨_, -, -, -, he'⟩ := site_casesN input ptx k' hk's
+      have hkk : y.1.key = k' := by rw [← hy1, he']
+      refine ⟨by rw [← hy1]; exact List.mem_map_of_mem hk's, ?_⟩
+      rw [hkk, hxk]
+      intro e
+      subst e
+      rw [List.nodup_append] at hnd
+      exact hnd.2.2 _ hk' _ (by simp) rfl
+    have hget : dGet? bc.found k = some fnd := by
+      rw [hinv.found, hfound]
+      have := hf.get
+      rwa [hxk] at this
+    obtain ⟨bc1, hcut, hinv1⟩ := chain_step (c := ⟨hd, hxs, hdone, hinv⟩) fnd hf
+    have hnew : withOffsets 0 (dks.map (siteOfN ptx (regOf input ptx).1)) ++
+          [(siteOfN ptx (regOf input ptx).1 k, offs (dks.map (siteOfN ptx (regOf input ptx).1)))] =
+        withOffsets 0 ((dks ++ [k]).map (siteOfN ptx (regOf input ptx).1)) := by
+      rw [List.map_append, List.map_cons, List.map_nil, withOffsets_append]
+      simp
+    have hoff : offs (dks.map (siteOfN ptx (regOf input ptx).1)) + (siteOfN ptx (regOf input ptx).1 k).chain.length =
+        offs ((dks ++ [k]).map (siteOfN ptx (regOf input ptx).1)) := by
+      simp [offs, List.sum_append]
+    rw [hnew, hoff] at hinv1
+    obtain ⟨bc2, hfold, hinv2⟩ := ih (dks ++ [k]) bc1 (by rw [hsplit]; simp) hinv1
+    refine ⟨bc2, ?_, by simpa using hinv2⟩
+    simp only [List.foldlM_cons, cutKey, hget, hcut, bind, Except.bind]
+    exact hfold
+
+theorem storeN_eq_of_pointwise (input ptx : List Scaffold) (base : Nat) (done : List (SiteN × Nat)) (l : List Res)
+    (hlen : l.length = (allPieces ptx).length)
+    (h : ∀ i, i < (allPieces ptx).length → l.getD i default = resDeepN input base done (pieceAt ptx i, i)) :
+    l = storeDeepN input ptx base done := by
+  apply List.ext_getElem?
+  intro i
+  unfold storeDeepN
+  rw [List.getElem?_map, List.getElem?_zipIdx]
+  by_cases hi : i < (allPieces ptx).length
+  · have h1 := h i hi
+    rw [List.getD_eq_getElem?_getD, List.getElem?_eq_getElem (by omega)] at h1
+    rw [List.getElem?_eq_getElem (by omega), (pieceAt_mem ptx i hi).2]
+    simp only [Option.getD_some] at h1
+    simp [h1]
+  · rw [List.getElem?_eq_none (by omega), List.getElem?_eq_none (by omega)]
+    rfl
+
+/-- number of cuts: one less than the number of holders, for every shared contig -/
+def cutsN (input ptx : List Scaffold) : Int :=
+  (offs (sitesN input ptx) : Int) - ((sitesN input ptx).length : Int)
+
+/-- **`cut_remaining_overlaps` on a deep-cut map, any number of cuts per contig** -/
+theorem cutRemaining_deepN {input ptx : List Scaffold} {err : Int} (hd : DeepCutN input ptx err) (b1 : Build)
+    (hstore : b1.store = expectedStore input ptx) (hfound : b1.found = (regOf input ptx).1)
+    (hmulti : b1.multi = sharedKeys input ptx) (hoid : b1.nextOid = oid0 input) :
+    ∃ b3, cutRemaining b1 = .ok b3 ∧ b3.store = expectedStoreDeepN input ptx ∧ b3.multi = [] ∧
+      b3.cuts = b1.cuts + cutsN input ptx ∧ b3.found = b1.found ∧ b3.namer = b1.namer ∧
+      b3.extra = b1.extra ∧ b3.joinGap = b1.joinGap ∧ b3.err = b1.err := by
+  have hinit : CutInvN input ptx b1 (withOffsets 0 (([] : List Key).map (siteOfN ptx (regOf input ptx).1)))
+      (offs (([] : List Key).map (siteOfN ptx (regOf input ptx).1))) b1 := by
+    refine ⟨by rw [hstore, expectedStore_eq_map]; simp, ?_, by simpa [offs] using hoid, by simp [offs, withOffsets],
+      rfl, rfl, rfl, rfl, rfl, rfl⟩
+    intro i hi
+    rw [hstore, expectedStore_eq_map, List.getD_eq_getElem?_getD, List.getElem?_map, (pieceAt_mem ptx i hi).2]
+    rfl
+  obtain ⟨bc, hfold, hinv⟩ := cutFold_deepN hd b1 hfound (sharedKeys input ptx) [] b1 (by simp) hinit
+  simp only [List.nil_append] at hinv
+  refine ⟨{ bc with multi := [] }, ?_, ?_, rfl, ?_, hinv.found, hinv.namer, hinv.extra, hinv.joinGap, hinv.err⟩
+  · rw [cutRemaining_eq'', hmulti, hfold]; rfl
+  · exact storeN_eq_of_pointwise input ptx _ _ bc.store hinv.len hinv.store
+  · show bc.cuts = _
+    rw [hinv.cuts, length_withOffsets]
+    unfold cutsN sitesN
+    omega
+
 end AgpTpf.C02
